@@ -128,7 +128,7 @@ func H_C17_commands(v *V) {
 }
 
 type c17L struct {
-	A   bool   `short:"a" long:"alpha" description:"DESCA is a long description that wraps around"`
+	A   bool   `short:"a" long:"al" description:"DESCA is a long description that wraps around"`
 	B   string `long:"beta" description:"DESCB" value-name:"VAL" choice:"x" choice:"y"`
 	C   string `short:"c" description:"DESCC"`
 	Pos struct {
@@ -183,6 +183,23 @@ func H_C17_layout(v *V) {
 	p := NewNamedParser("prog", None)
 	p.AddGroup("Application Options", "", d)
 	name := c17Name(v, v.Shape("n"))
+	// the argument option: with / without a value name and choices, its
+	// argument mandatory or optional
+	ob := p.FindOptionByLongName("beta")
+	feat := 0
+	if which != 1 {
+		feat = v.Choice(4)
+	} else {
+		feat = 2 * v.Choice(2)
+	}
+	if feat == 1 || feat == 3 {
+		ob.ValueName = ""
+		ob.Choices = nil
+	}
+	if feat >= 2 {
+		ob.OptionalArgument = true
+		ob.OptionalValue = []string{"x"}
+	}
 	switch which {
 	case 0:
 		p.FindOptionByLongName("beta").LongName = name
